@@ -5,7 +5,8 @@
    configuration-dependent constructs are a switch-guarded error test (`checks`) and a method lookup that
    goes through the type's cache slots (`cache`), the sequence API of Array.c written in it, and the audit
    of the guarded blocks and of the cache wiring of the C source (Generated.v, tools/genx_cfg.py).
-   Optimisation levels, the header layout and the collector are compiler / ABI / other-property matters:
+   The collector switch is covered on a separate register-machine model, with the collector's safety as a
+   hypothesis (C01's statement).  Optimisation levels and the header layout are compiler / ABI matters:
    for those the correspondence run (props/C18.py) is the check. *)
 From CelloV Require Import Generated Config ConfigProofs.
 From Coq Require Import List Bool ZArith String.
@@ -108,8 +109,35 @@ Theorem unsound_cache_configs_differ :
 Proof. exact ConfigProofs.unsound_cache_differs. Qed.
 Print Assumptions unsound_cache_configs_differ.
 
-(* 5. the interpreter reads nothing of the configuration but the check switches and the cache flag (the
-      collector is not part of this model: its transparency is C01's statement) *)
+(* 4c. CELLO_NGC: a program that reaches objects only through its registers (allocate, read, write,
+       re-link, copy or clear a register) observes the same values whether the collector is compiled in
+       or not, for every collection schedule — PROVIDED the collector leaves reachable objects as they
+       are (`collector_safe`, which is what C01 establishes for the real mark-and-sweep; here it is a
+       hypothesis, the collector itself is a parameter) *)
+Theorem collector_transparent :
+  forall (collect : nat -> heap -> roots -> heap) (ops : list gop) (s : gstate) (c1 c2 : config),
+  collector_safe collect ->
+  snd (grun_cfg c1 collect 0 ops s) = snd (grun_cfg c2 collect 0 ops s).
+Proof. exact ConfigProofs.gc_config_independent. Qed.
+Print Assumptions collector_transparent.
+
+Example collector_transparent_nonvacuous :
+  collector_safe (fun _ h _ => h) /\
+  snd (grun_cfg cfg_default (fun _ h _ => h) 0
+         [GAlloc 0 5%Z []; GAlloc 1 6%Z [(0, [])]; GDrop 0; GRead (1, [0]); GWrite (1, [0]) 9%Z; GMove 2 (1, [0]); GRead (2, [])]
+         g_empty) = [GUnit; GUnit; GUnit; GVal 5%Z; GUnit; GUnit; GVal 9%Z].
+Proof. split; [exact identity_collector_safe | vm_compute; reflexivity]. Qed.
+
+(* 4d. that hypothesis cannot be dropped: a collector that frees a reachable object changes what the
+       program reads *)
+Theorem unsafe_collector_configs_differ :
+  exists (collect : nat -> heap -> roots -> heap) (ops : list gop),
+    snd (grun true collect 0 ops g_empty) <> snd (grun false collect 0 ops g_empty).
+Proof. exact ConfigProofs.unsafe_collector_differs. Qed.
+Print Assumptions unsafe_collector_configs_differ.
+
+(* 5. the interpreter of API bodies reads nothing of the configuration but the check switches and the
+      cache flag (the collector switch is the subject of 4c, on its own program model) *)
 Theorem run_reads_checks_and_cache_only :
   forall (St Val : Type) (p : prog St Val) (s : St) (T : types) (c1 c2 : config),
   (forall sw, checks c1 sw = checks c2 sw) -> cache c1 = cache c2 -> run St Val c1 p s T = run St Val c2 p s T.
